@@ -46,6 +46,10 @@ struct NodeSpec {
     /// refused tcp / ws and an unanswered quic address of the other transports, otherwise one more dead address
     #[serde(default)]
     decoy: bool,
+    /// the others reach this (real) node only through a TCP proxy of the harness that holds every new connection
+    /// until all operations have been issued (tcp / ws / mix networks; the node is dialed directly over quic)
+    #[serde(default)]
+    gated: bool,
 }
 fn never() -> String {
     "never".into()
@@ -88,6 +92,9 @@ struct Scenario {
     /// "tcp" | "ws" | "quic" | "mix" (every node listens on all three; routing entries carry different subsets)
     #[serde(default = "tcp")]
     transport: String,
+    /// the local node's runtime handles its events in bursts for this long after the operations were issued
+    #[serde(default)]
+    jitter_ms: u64,
 }
 fn tcp() -> String {
     "tcp".into()
@@ -102,6 +109,8 @@ enum Fake {
     Refusing(tokio::task::JoinHandle<()>),
     /// a real node that answers under another identity than the dialed one (the handshake is refused)
     WrongId(NodeHandle),
+    /// TCP proxy in front of a real node
+    Proxy(tokio::task::JoinHandle<()>),
     NoAddr,
 }
 
@@ -118,6 +127,7 @@ fn role_of(s: &str) -> Option<Role> {
         "silent" => Some(Role::Silent),
         "silentput" => Some(Role::SilentPut),
         "dieonreq" => Some(Role::DieOnReq),
+        "dropafterconnect" => Some(Role::DropAfterConnect),
         "nokad" => Some(Role::NoKad),
         _ => None,
     }
@@ -240,6 +250,7 @@ async fn run_scenario(sc: Scenario, fault: String) -> Result<Outcome, String> {
     let mut slots: Vec<Slot> = Vec::new();
     // node 0: the local node
     let tr = sc.transport.clone();
+    let (gate_tx, gate_rx) = tokio::sync::watch::channel(false);
     let local = node::spawn(NodeCfg { net: sc.id, idx: 0, role: Role::Kad, max_outgoing: sc.limit, transport: tr.clone() }, log.clone()).await?;
     slots.push(Slot { peer: local.peer, addrs: local.addrs.clone(), real: Some(local), fakes: vec![] });
     for (i, ns) in sc.nodes.iter().enumerate() {
@@ -273,6 +284,74 @@ async fn run_scenario(sc: Scenario, fault: String) -> Result<Outcome, String> {
                         addrs.insert(0, bare.with(Protocol::P2p(h.peer.into())));
                     }
                     fakes = f;
+                }
+            }
+            if ns.gated && tr == "quic" {
+                // UDP relay: datagrams are dropped until the gate opens (the dialer retransmits its Initial)
+                let port = h.addrs[0].iter().find_map(|p| if let Protocol::Udp(x) = p { Some(x) } else { None }).unwrap_or(0);
+                let sock = std::sync::Arc::new(tokio::net::UdpSocket::bind("127.0.0.1:0").await.map_err(|e| e.to_string())?);
+                let pport = sock.local_addr().map_err(|e| e.to_string())?.port();
+                let gate = gate_rx.clone();
+                let jh = tokio::spawn(async move {
+                    let mut ups: HashMap<std::net::SocketAddr, std::sync::Arc<tokio::net::UdpSocket>> = HashMap::new();
+                    let mut buf = vec![0u8; 65536];
+                    loop {
+                        let Ok((n, from)) = sock.recv_from(&mut buf).await else { continue };
+                        if !*gate.borrow() {
+                            continue;
+                        }
+                        let up = match ups.get(&from) {
+                            Some(u) => u.clone(),
+                            None => {
+                                let Ok(u) = tokio::net::UdpSocket::bind("127.0.0.1:0").await else { continue };
+                                if u.connect(("127.0.0.1", port)).await.is_err() {
+                                    continue;
+                                }
+                                let u = std::sync::Arc::new(u);
+                                ups.insert(from, u.clone());
+                                let (u2, s2) = (u.clone(), sock.clone());
+                                tokio::spawn(async move {
+                                    let mut b = vec![0u8; 65536];
+                                    while let Ok(n) = u2.recv(&mut b).await {
+                                        let _ = s2.send_to(&b[..n], from).await;
+                                    }
+                                });
+                                u
+                            }
+                        };
+                        let _ = up.send(&buf[..n]).await;
+                    }
+                });
+                addrs = vec![with_peer(&format!("/ip4/127.0.0.1/udp/{pport}/quic-v1"), h.peer)];
+                fakes.push(Fake::Proxy(jh));
+            }
+            if ns.gated && tr != "quic" {
+                // the first tcp-based listen address of the node (plain tcp, or ws)
+                let target = h.addrs.iter().find(|a| !a.iter().any(|p| matches!(p, Protocol::QuicV1))).cloned();
+                if let Some(target) = target {
+                    let port = target.iter().find_map(|p| if let Protocol::Tcp(x) = p { Some(x) } else { None }).unwrap_or(0);
+                    let ws = target.iter().any(|p| matches!(p, Protocol::Ws(_)));
+                    let l = tokio::net::TcpListener::bind("127.0.0.1:0").await.map_err(|e| e.to_string())?;
+                    let pport = l.local_addr().map_err(|e| e.to_string())?.port();
+                    let gate0 = gate_rx.clone();
+                    let jh = tokio::spawn(async move {
+                        loop {
+                            let Ok((mut inc, _)) = l.accept().await else { continue };
+                            let mut gate = gate0.clone();
+                            tokio::spawn(async move {
+                                while !*gate.borrow() {
+                                    if gate.changed().await.is_err() {
+                                        return;
+                                    }
+                                }
+                                if let Ok(mut out) = tokio::net::TcpStream::connect(("127.0.0.1", port)).await {
+                                    let _ = tokio::io::copy_bidirectional(&mut inc, &mut out).await;
+                                }
+                            });
+                        }
+                    });
+                    addrs = vec![with_peer(&format!("/ip4/127.0.0.1/tcp/{pport}{}", if ws { "/ws" } else { "" }), h.peer)];
+                    fakes.push(Fake::Proxy(jh));
                 }
             }
             slots.push(Slot { peer: h.peer, addrs, real: Some(h), fakes });
@@ -394,6 +473,9 @@ async fn run_scenario(sc: Scenario, fault: String) -> Result<Outcome, String> {
         }
     }
     // 6. the operations
+    if sc.jitter_ms > 0 {
+        send(&slots, 0, Ctl::Jitter(sc.jitter_ms));
+    }
     // every operation gets the full deadline, counted from the moment it was issued
     let mut t_ops = Instant::now();
     for (oi, op) in sc.ops.iter().enumerate() {
@@ -414,6 +496,8 @@ async fn run_scenario(sc: Scenario, fault: String) -> Result<Outcome, String> {
             _ => return Err(format!("scenario {}: local node did not accept op {}", sc.id, oi)),
         }
     }
+    // connections held by the gating proxies go through now
+    let _ = gate_tx.send(true);
     // 7. wait: every operation terminal and nothing new for `settle`, or the deadline
     let need_recv = |op: &OpSpec| -> usize {
         // what a reported success needs at least (mirrors KadOps!Need); only used to wait longer
@@ -478,7 +562,7 @@ async fn run_scenario(sc: Scenario, fault: String) -> Result<Outcome, String> {
         }
         for f in s.fakes.iter_mut() {
             match f {
-                Fake::Refusing(h) => h.abort(),
+                Fake::Refusing(h) | Fake::Proxy(h) => h.abort(),
                 Fake::WrongId(h) => h.kill().await,
                 _ => {}
             }
@@ -584,6 +668,10 @@ async fn run_scenario(sc: Scenario, fault: String) -> Result<Outcome, String> {
         "conns_local": snap.iter().filter(|e| e["k"] == "conn" && e["node"] == 0).count(),
         "dialfail_local": snap.iter().filter(|e| e["k"] == "dialfail" && e["node"] == 0).count(),
     });
+    let mut diag = diag;
+    if std::env::var("VERIF_RAW").is_ok() {
+        diag["raw"] = json!(snap);
+    }
     Ok(Outcome { trace, diag })
 }
 
